@@ -116,3 +116,39 @@ func verifC20_exit() {
 	vAssert(vGhostElapsed() < 30*time.Second, "C20.exit.bounded")
 	vObserve("c20", ending)
 }
+
+// C20.stuck: a library goroutine that is genuinely busy when the connection is closed (the CloseRead goroutine is writing
+// its policy-violation Close frame to a peer that does not read; the blocked write returns only 300 ms after the transport
+// was closed): CloseNow / Close must not return before that goroutine is gone, whatever the transport's Close returns.
+func verifC20_stuck() {
+	client := vParam("client", 0) == 1
+	vInstallRand()
+	f := vFrame{fin: true, opcode: 1, masked: !client, payload: vBytes("m", 1)}
+	if f.masked {
+		copy(f.key[:], vBytes("key", 4))
+	}
+	t := vNewTransport(vEncodeFrame(f))
+	t.endMode = vEndBlock
+	t.writeBlock = true
+	t.slowRelease = 300 * time.Millisecond
+	if vChoose("transportCloseFails", 2) == 1 {
+		t.closeErr = vErrForeign
+	}
+	c := vNewConn(t, client, nil, 32, 64)
+	c.CloseRead(vBG)
+	vGhostSettle() // the CloseRead goroutine has met the data message and is blocked writing its Close frame
+	if vChoose("waitForWriteTimeout", 2) == 1 {
+		time.Sleep(6 * time.Second) // the 5 s write timeout closes the connection first
+	}
+	var err error
+	if vChoose("closenow", 2) == 1 {
+		err = c.CloseNow()
+	} else {
+		err = c.Close(StatusNormalClosure, "")
+	}
+	vReach("C20.stuck.returned")
+	n := vGhostGoroutines()
+	vAssert(n == 0, "C20.stuck.no-goroutine-left-when-close-returns")
+	vAssert(vNot(vIsOpen(c)), "C20.stuck.closed")
+	vObserve("stuck", err == nil)
+}
